@@ -3,7 +3,7 @@
    routines, any buffer sizes, any nesting) and ALL schedules.  What the model cannot exhibit (Go scheduler,
    data races on interpreter globals, fatal `concurrent map` errors) is exercised on the implementation only:
    see props/C17.json. *)
-From C17 Require Import Model Spec Steps ChanProofs MutexProofs CounterProofs FlatProofs ObsProofs Corr Proofs.
+From C17 Require Import Model Spec Steps ChanProofs MutexProofs CounterProofs FlatProofs ObsProofs Explore Corr Proofs.
 
 (* (1) "every item pushed on a channel is received exactly once".
    Conservation: what was sent on a channel = what was received ++ what is still queued ++ what a close
@@ -131,6 +131,20 @@ Theorem C17_code_two_outside_model : forall p o osch, check_case (p, o, osch) = 
   forall s, reach p s -> matches s o = false.
 Proof. exact check_two_outside_model. Qed.
 Print Assumptions C17_code_two_outside_model.
+
+(* the verified exhaustive explorer behind code 2 for small programs: if the closed set of (ghost-erased)
+   states it computes contains no state showing the observation, then NO schedule of the program shows it *)
+Theorem C17_exhaustive_none_sound : forall fuel p o, exhaustive_none fuel p o = true ->
+  forall s, reach p s -> matches s o = false.
+Proof. exact exhaustive_none_sound. Qed.
+Print Assumptions C17_exhaustive_none_sound.
+
+(* ... and it does say yes and no: two unguarded increments end with 1 or 2, never with 0 or 3 *)
+Theorem C17_explorer_example :
+  exhaustive_none 500 w_unguarded (obs_unguarded 3) = true /\ exhaustive_none 500 w_unguarded (obs_unguarded 0) = true /\
+  exhaustive_none 500 w_unguarded (obs_unguarded 1) = false /\ exhaustive_none 500 w_unguarded (obs_unguarded 2) = false.
+Proof. exact explorer_example. Qed.
+Print Assumptions C17_explorer_example.
 
 (* (9) non-vacuity: the hypotheses are satisfiable by non-trivial programs, with schedules reaching the end *)
 Theorem C17_counter_example :
